@@ -46,4 +46,10 @@ CHECKS = {
         "assumptions": SIM_ASSUME,
         "stages": [sim_stage(2000, 30000)],
     },
+    "C05": {
+        "pkg": "c05", "level": "exploration",
+        "rule": "layer 1 (scheduler level, scripted executor): DagCase with a stop request injected at a generated trace position (before start; after the N-th event; inside creation of a chosen attempt's executor with the attempt gated until the stop returned = between executor creation and process start; at process start; at/after exit = during retry wait / between repeat iterations; at the first handler) x steps obeying or ignoring the signal (half of the ignoring ones end only on SIGKILL) x signalOnStop x repeating steps x harness-side SIGKILL escalation after 5/20 polling periods (mirrors the agent after maxCleanUpTime); 20% DAG-timeout cases with attempts the harness never releases. Oracle on the trace: no first start after the stop returned; every attempt open during the stop call gets the right signal; repeat steps not signalled and not repeated; still-open attempts get SIGKILL at escalation; run ends (bounded liveness, 5x confirm) canceled with onCancel then onExit once; after a timeout: not finished, no node left running, matching handler and onExit executed. Non-trivial: stop with >=1 open attempt, or in the create->start window, or repeat iteration open at stop, or force-kill delivered, or a timeout that fired. Distinct: hash(case, realised order).",
+        "assumptions": SIM_ASSUME,
+        "stages": [sim_stage(1500, 25000, shrinktime="20s")],
+    },
 }
